@@ -1290,6 +1290,16 @@ func (c *codegen) Visit(node ast.Node) ast.Visitor {
 			c.emitLoadConst(tv)
 		} else if n.Name == "nil" {
 			emit.Opcodes(c.prog.BinWriter, opcode.PUSHNULL)
+		} else if fn, ok := c.typeInfo.Uses[n].(*types.Func); ok && fn.Pkg() != nil {
+			// A declared function used as a value (f := helper).
+			f, ok := c.getFuncFromIdent(n)
+			if !ok || f.decl.Recv != nil || f.decl.Body == nil || canInline(f.pkg.Path(), f.decl.Name.Name, false) {
+				c.prog.Err = fmt.Errorf("function %s can't be used as a value", n.Name)
+				return nil
+			}
+			buf := make([]byte, 4)
+			binary.LittleEndian.PutUint16(buf, f.label)
+			emit.Instruction(c.prog.BinWriter, opcode.PUSHA, buf)
 		} else {
 			c.emitLoadVar("", n.Name)
 		}
